@@ -138,12 +138,15 @@ Creds == {NoCred} \cup {Cred("cookie", "good", u, fs) : u \in Users, fs \in Cook
          \cup {Cred("kmcert", "good_othercookie", "alice", {})}
 \* operations without a target parameter
 Untargeted == {"vipotp", "rolerefresh", "totpgen", "authorize", "showtoken", "clisend", "u2fsignreq", "webauthnbegin", "vippushstart"}
-\* target: the actor itself, another ordinary user, or another user who is an ADMINISTRATOR (the rights that count are
-\* the requester's, never the target's)
-InC06(p) == \E o \in Ops, c \in Creds, t \in {"self", "other", "otheradmin"}, m \in {"GET", "POST"}, og \in {"none", "same", "cross"},
+\* target: the actor itself, another ordinary user, another user who is an ADMINISTRATOR (the rights that count are
+\* the requester's, never the target's), or another ordinary user whose name is the actor's in another case
+InC06(p) == \E o \in Ops, c \in Creds, t \in {"self", "other", "otheradmin", "othercase"}, m \in {"GET", "POST"}, og \in {"none", "same", "cross"},
                wu \in {{"pw"}, {"u2f"}} :
                /\ (o.other \in {"always", "automation"} => t = "other")
                /\ (t = "otheradmin" => (o.other \in {"adminu2f", "admin", "never"} /\ og = "none"))
+               \* othercase: ANOTHER stored account whose name differs from the actor's in the case of a letter only ("Alice"
+               \* for alice): a name that is normalised for the comparison and used as typed for the access is somebody else's
+               /\ (t = "othercase" => (o.other \in {"adminu2f", "admin", "never"} /\ og = "none" /\ c.user \in Users))
                \* completing a factor takes that factor's secret: whoever can make a browser send it cross-site already holds
                \* the user's second factor, and what comes back goes to the user's own browser - not probed cross-site
                /\ (o.effect = "cookie" => og # "cross")
